@@ -242,7 +242,7 @@ def optional_deref_guarded(fn, attr, guard_names):
 
 
 def r3i_noncoding_interpreted(ctx):
-    """deciding rule: every TranscriptInterval method that touches the optional CDS, interpreted on a NON-coding transcript
+    """deciding rule: every public TranscriptInterval method, interpreted on a NON-coding transcript
     (on a sequence-carrying chromosome), either answers or raises a documented exception - never an AttributeError /
     TypeError from dereferencing None.  Arguments are synthesised from the parameter names."""
     r, repo = ctx.r, ctx.repo
@@ -254,11 +254,10 @@ def r3i_noncoding_interpreted(ctx):
     n = 0
     internal = ("AttributeError", "TypeError", "IndexError", "KeyError", "RecursionError", "UnboundLocalError", "NameError")
     for name, fn in sorted(cls.methods.items()):
-        if name == "__init__" or name.startswith("_"):
+        if name == "__init__" or name.startswith("_") or fn.is_static or fn.is_classmethod:
             continue
-        uses = [x for x in walk_shallow(fn.node) if isinstance(x, ast.Attribute) and dotted(x.value) == "self.cds"]
-        if not uses:
-            continue
+        # every public method the class defines itself (not only those that mention self.cds in their own body: the
+        # dereference may sit in a helper)
         params = fn.pos_params[1:]
         a = fn.node.args
         ndef = len(a.defaults)
@@ -563,11 +562,11 @@ def _wrapper_case(repo, it, S, spec):
     return n, out
 
 
-def rw_wrappers(ctx):
+def rw_wrappers(ctx, rule="C06.RW", classes=("TranscriptInterval", "FeatureInterval", "CDSInterval")):
     repo = ctx.repo
     specs = [(li, sn, pk, cn) for li in range(len(RW_LAYOUTS) if ctx.thorough else 2) for sn in ("PLUS", "MINUS")
              for pk in ("none", "chunk", "chrom") if ctx.thorough or pk != "chrom"
-             for cn in ("TranscriptInterval", "FeatureInterval", "CDSInterval")]
+             for cn in classes]
 
     def work(spec):
         if _W.get("repo") is not repo:
@@ -582,14 +581,14 @@ def rw_wrappers(ctx):
     results = pmap(work, specs, min_items=2)
     from .c05 import _report
     names = []
-    for cname in ("AbstractFeatureInterval", "TranscriptInterval", "CDSInterval"):
+    for cname in ("AbstractFeatureInterval",) + tuple(c for c in classes if c != "FeatureInterval"):
         cls = repo.cls(cname)
         for mname, fn in sorted(cls.methods.items()):
             m = NAME_RE.match(mname)
             if m and not {m.group(1), m.group(3)} <= {"feature", "transcript", "cds"}:
                 names.append((fn.qual, "whole small domain on parent-less and chunk-built objects, both strands"))
-    ctx.r.floor("C06.RW", "coordinate wrappers found by name", len(names), 33)
-    _report(ctx, "C06.RW", results, names)
+    ctx.r.floor(rule, "coordinate wrappers found by name", len(names), 33 if len(classes) == 3 else 8)
+    _report(ctx, rule, results, names)
 
 
 
